@@ -436,14 +436,15 @@ let run_case (fields : string list) : string =
     (match recognize_http (unhex m) (unhex t) with
      | Ok (PHttp a) -> "OK H " ^ addr_str a | Ok (PHttps a) -> "OK S " ^ addr_str a
      | Err _ -> "ERR" | Panic -> "PANIC")
-  | "hshake" :: stream :: arrivals :: local :: _ ->
+  | ("hshake" | "hshake0" as comp) :: stream :: arrivals :: local :: _ ->
     (* client/handshake.rs::get_request_addr over an arrival history: stream = hex of everything the application
        sends, arrivals = comma-separated "bytes arrived so far" lengths ("-" = everything at once), local = hex of
-       the local socket address in SOCKS5 encoding (ATYP ADDR PORT).
+       the local socket address in SOCKS5 encoding (ATYP ADDR PORT).  hshake0 = the behaviour before the repairs
+       fad5d1a / 32d4108 (Model.Handshake.handshake_v0), for regression sensitivity of the generated cases.
        OK <5|H|S> <target> <hex reply> <consumed>  |  ERR <why> <hex reply>  |  PANIC *)
     let local = (match s5_decode (unhex local) with Ok (a, _) -> a | _ -> failwith "hshake: local address") in
     let hist = List.map (fun x -> n_of_int (int_of_string x)) (csv arrivals) in
-    (match handshake (unhex stream) local hist with
+    (match (if comp = "hshake" then handshake else handshake_v0) (unhex stream) local hist with
      | Tunnel (k, a, reply, n) ->
        Printf.sprintf "OK %s %s %s %d" (match k with KSocks5 -> "5" | KHttp -> "H" | KHttps -> "S") (addr_str a) (hx reply) (int_of_n n)
      | Refused (why, reply) ->
